@@ -46,16 +46,59 @@ Proof.
 Qed.
 
 (* every object the path ends at says what it is *)
+Fixpoint typed_elem (P : list (string * json) -> Prop) (x : json) {struct x} : Prop :=
+  match x with
+  | JObj m => P m
+  | JArr l => (fix all (l : list json) := match l with [] => True | y :: r => typed_elem P y /\ all r end) l
+  | _ => True
+  end.
+Lemma typed_elem_all P l :
+  (fix all (l : list json) := match l with [] => True | y :: r => typed_elem P y /\ all r end) l <-> Forall (typed_elem P) l.
+Proof.
+  induction l as [|y r IH]; [split; [constructor|trivial]|]. split.
+  - intros [H1 H2]. constructor; [exact H1|apply IH, H2].
+  - intros H. inversion H; subst. split; [assumption|apply IH; assumption].
+Qed.
 Fixpoint typed_at (path : list string) (o : list (string * json)) : Prop :=
   match path with
   | [] => has_typename o
   | p :: rest =>
       match assoc p o with
       | Some (JObj m) => typed_at rest m
-      | Some (JArr l) => Forall (fun x => match x with JObj m => typed_at rest m | _ => True end) l
+      | Some (JArr l) => Forall (typed_elem (typed_at rest)) l
       | _ => True
       end
   end.
+
+Section json_ind2.
+  Variable P : json -> Prop.
+  Hypothesis HNull : P JNull.
+  Hypothesis HBool : forall b, P (JBool b).
+  Hypothesis HNum : forall r, P (JNum r).
+  Hypothesis HStr : forall s, P (JStr s).
+  Hypothesis HArr : forall l, Forall P l -> P (JArr l).
+  Hypothesis HObj : forall l, P (JObj l).
+  Hypothesis HFile : forall k, P (JFile k).
+  Fixpoint json_ind2 (x : json) : P x :=
+    match x with
+    | JNull => HNull | JBool b => HBool b | JNum r => HNum r | JStr s => HStr s | JFile k => HFile k
+    | JObj l => HObj l
+    | JArr l => HArr l ((fix go (l : list json) : Forall P l :=
+                           match l with [] => Forall_nil _ | y :: t => Forall_cons y (json_ind2 y) (go t) end) l)
+    end.
+End json_ind2.
+
+(* two object cleaners that agree on every object reachable through lists agree on the entry *)
+Lemma clean_elem_ext (co co' : list (string * json) -> list (string * json) * bool) (Q : list (string * json) -> Prop) x :
+  (forall m, Q m -> co m = co' m) -> typed_elem Q x -> clean_elem co x = clean_elem co' x.
+Proof.
+  intros Hco. induction x as [| | | |l IH| |] using json_ind2; intros Ht; cbn [clean_elem]; try reflexivity.
+  - assert (E : map (clean_elem co) l = map (clean_elem co') l).
+    { apply map_ext_in. intros y Hy. rewrite Forall_forall in IH. apply (IH y Hy).
+      cbn [typed_elem] in Ht. apply typed_elem_all in Ht. rewrite Forall_forall in Ht. exact (Ht y Hy). }
+    rewrite E. reflexivity.
+  - cbn [typed_elem] in Ht. rewrite (Hco l Ht). reflexivity.
+Qed.
 
 Theorem clean_order_independent path : forall o (fields fields' : typefields),
   NoDup (map fst fields) -> Permutation fields fields' ->
@@ -65,12 +108,15 @@ Proof.
   induction path as [|p rest IH]; intros o fields fields' Hnd Hp Ht; cbn [clean].
   - rewrite (pick_fields_order_independent o fields fields' Hnd Hp); [reflexivity|]. destruct Ht; [left|right]; assumption.
   - destruct (assoc p o) as [[| | | |l|m|]|] eqn:A; try reflexivity.
-    + assert (E : map (fun x => match x with JObj m => let '(m', rm) := clean rest fields m in (JObj m', rm) | other => (other, true) end) l
-                = map (fun x => match x with JObj m => let '(m', rm) := clean rest fields' m in (JObj m', rm) | other => (other, true) end) l).
-      { apply map_ext_in. intros x Hx. destruct x; try reflexivity.
-        rewrite (IH l0 fields fields' Hnd Hp); [reflexivity|].
-        destruct Ht as [Ht|Ht]; [left|now right]. cbn [typed_at] in Ht. rewrite A in Ht.
-        rewrite Forall_forall in Ht. exact (Ht _ Hx). }
+    + assert (E : map (clean_elem (clean rest fields)) l = map (clean_elem (clean rest fields')) l).
+      { apply map_ext_in. intros x Hx. destruct Ht as [Ht|Ht].
+        - cbn [typed_at] in Ht. rewrite A in Ht. rewrite Forall_forall in Ht.
+          apply (clean_elem_ext _ _ (typed_at rest)); [|exact (Ht x Hx)].
+          intros m Hm. apply (IH m fields fields' Hnd Hp). left. exact Hm.
+        - apply (clean_elem_ext _ _ (fun _ => True)).
+          + intros m _. apply (IH m fields fields' Hnd Hp). right. exact Ht.
+          + clear. induction x as [| | | |l IH| |] using json_ind2; cbn [typed_elem]; try exact I.
+            apply typed_elem_all. exact IH. }
       now rewrite E.
     + rewrite (IH m fields fields' Hnd Hp); [reflexivity|].
       destruct Ht as [Ht|Ht]; [left|now right]. cbn [typed_at] in Ht. now rewrite A in Ht.
